@@ -31,7 +31,10 @@ TIERS = {
     # what CMakeCache (RelWithDebInfo) + src/CMakeLists.txt produce
     "pinned": (["gcc"], ["-O2", "-g", "-DNDEBUG", "-std=c11", "-mtune=native", "-O3", "-fPIC"]),
     "debug": (["gcc"], ["-O0", "-g", "-std=c11", "-fPIC"]),
-    "san": (["clang-14"], ["-O1", "-g", "-std=c11", "-fsanitize=address,undefined",
+    # alignment is excluded: the library stores and loads multi-byte words at byte-packed (unaligned)
+    # addresses by design (*(uint64_t *)dst in varintExternalBigEndian.c, the bitstream, packed arrays);
+    # that is outside the listed properties and harmless on the x86-64 targets the build supports
+    "san": (["clang-14"], ["-O1", "-g", "-std=c11", "-fsanitize=address,undefined", "-fno-sanitize=alignment",
                            "-fno-sanitize-recover=undefined", "-fno-omit-frame-pointer"]),
     "tsan": (["clang-14"], ["-O1", "-g", "-std=c11", "-fsanitize=thread"]),
     "simd": (["gcc"], ["-O2", "-g", "-DNDEBUG", "-std=c11", "-O3", "-fPIC", "-mavx2",
